@@ -296,6 +296,29 @@ func genBlast(r *hx.Rand, cfg childCfg, thorough bool) []*conv {
 	for i, it := range odd {
 		add(fmt.Sprintf("inconsistent#%d", i), carPlain, pickEnd(), it)
 	}
+	// one session, two SETUPs that disagree in delivery / lower protocol, in every order
+	deliv := []string{"RTP/AVP;multicast", "RTP/AVP;unicast;client_port=%d-%d", "RTP/AVP/TCP;unicast;interleaved=0-1"}
+	for i := range deliv {
+		for j := range deliv {
+			if i == j {
+				continue
+			}
+			port += 4
+			t1, t2 := deliv[i], deliv[j]
+			if strings.Contains(t1, "%d") {
+				t1 = fmt.Sprintf(t1, port, port+1)
+			}
+			if strings.Contains(t2, "%d") {
+				t2 = fmt.Sprintf(t2, port+2, port+3)
+			}
+			add(fmt.Sprintf("mixed-delivery#%d.%d", i, j), carPlain, pickEnd(), []item{
+				reqItem("SETUP", rq("SETUP", b+"/trackID=0", "CSeq: 1", "Transport: "+t1)),
+				reqItem("SETUP", rq("SETUP", b+"/trackID=1", "CSeq: 2", "Transport: "+t2, "Session: $SESSION$")),
+				reqItem("PLAY", rq("PLAY", b, "CSeq: 3", "Session: $SESSION$")),
+				{kind: itSleep, n: 30},
+			})
+		}
+	}
 	// shuffle so that different kinds are in flight together
 	for i := len(out) - 1; i > 0; i-- {
 		j := r.Intn(i + 1)
